@@ -208,12 +208,11 @@ def check_python(report):
     r1.check(bb is not None and bb["_ANYH_"] == "self.options.Extensions[annotations_pb2.http]", p, fi.node.lineno, "Method.http_options",
              "http_options must be, in this order, the primary binding followed by its additional_bindings, each parsed by "
              "HttpRule.try_parse_http_rule, dropping only those that failed to parse (None)")
-    tp = m.func("gapic.schema.wrappers.HttpRule.try_parse_http_rule")
+    from .common_rules import try_parse_http_rule_table
+    bad, shown, tp = try_parse_http_rule_table()
     r1.instance("try_parse_http_rule")
-    bb = nmatch(m, "None if _ANYM_ is None or _ANYM_ == 'custom' else (cls(_ANYM_, utils.convert_uri_fieldnames(getattr(_HR_, _ANYM_)), "
-                   "f'{_ANYB_}_' if _ANYB_ in utils.RESERVED_NAMES and (not _ANYB_.endswith('_')) else _ANYB_) if getattr(_HR_, _ANYM_) else None)", tp)
-    r1.check(bb is not None and bb["_ANYM_"] == f"{bb['_HR_']}.WhichOneof('pattern')" and bb["_ANYB_"] == f"{bb['_HR_']}.body or None", p, tp.node.lineno,
-             "HttpRule.try_parse_http_rule",
+    r1.need(bad is not None, "HttpRule.try_parse_http_rule", shown)
+    r1.check(not bad, p, tp.node.lineno, f"HttpRule.try_parse_http_rule: {'; '.join(bad[:2])}" if bad else "HttpRule.try_parse_http_rule",
              "None only for absent / custom patterns and empty uris; otherwise HttpRule(verb, convert_uri_fieldnames(uri), body) where a reserved body "
              "field name gets one '_' (once)")
 
